@@ -180,12 +180,17 @@ class Sim:
         self.P = P
         self.generation += 1
         plan = plan if plan is not None else self.plan
+        # a forked child holds copies of every pipe end until it has closed them; on a loaded machine that can take
+        # long enough for a later close_spawner() to go unnoticed by the daemon (no EOF while a copy is open).  The
+        # close-on-exec write end of this pipe tells us when both children have exec'd (or died).
+        sr, sw = os.pipe()
         cpid = os.fork()
         if cpid == 0:
             try:
                 os.dup2(P["creq"][0], 0)
                 os.dup2(P["crsp"][1], 1)
-                os.closerange(3, 1024)
+                os.closerange(3, sw)
+                os.closerange(sw + 1, 1024)
                 os.execve(self.home + "/bin/qmail-clean", ["qmail-clean"], self.env("clean", plan=plan))
             finally:
                 os._exit(127)
@@ -193,17 +198,32 @@ class Sim:
         if spid == 0:
             try:
                 fds = [P["log"][1], P["lcmd"][1], P["lrep"][0], P["rcmd"][1], P["rrep"][0], P["creq"][1], P["crsp"][0]]
+                sw2 = os.dup(sw)
+                while sw2 < 7:
+                    sw2 = os.dup(sw2)
+                os.set_inheritable(sw2, False)
                 for i, fd in enumerate(fds):
                     os.dup2(fd, 700 + i)
                 for i in range(7):
                     os.dup2(700 + i, i)
-                os.closerange(7, 1024)
+                os.closerange(7, sw2)
+                os.closerange(sw2 + 1, 1024)
                 e = self.env("send", plan=plan, extra=self.daemon_env_extra)
                 os.execve(self.home + "/bin/qmail-send", ["qmail-send"], e)
             finally:
                 os._exit(127)
+        os.close(sw)
+        while True:
+            try:
+                if os.read(sr, 1) == b"":
+                    break
+            except InterruptedError:
+                continue
+        os.close(sr)
         for n, i in (("log", 1), ("lcmd", 1), ("lrep", 0), ("rcmd", 1), ("rrep", 0), ("creq", 0), ("creq", 1), ("crsp", 0), ("crsp", 1)):
             os.close(P[n][i])
+            # the number is free again and will be handed to the next descriptor we open: forget it (see _close_pipes)
+            P[n] = (-1, P[n][1]) if i == 0 else (P[n][0], -1)
         for n in ("log", "lcmd", "rcmd"):
             fcntl.fcntl(P[n][0], fcntl.F_SETFL, os.O_NONBLOCK)
         os.write(P["lrep"][1], bytes([self.spawn_limit[0]]))
@@ -551,6 +571,7 @@ class Sim:
             f.write(envelope)
         e = self.env(role, gated=True)
         e["NQV_GATEPROG"] = self.gate_progs
+        sr, sw = os.pipe()                 # see start_daemons: wait until the child has let go of our descriptors
         pid = os.fork()
         if pid == 0:
             try:
@@ -558,10 +579,19 @@ class Sim:
                 b_ = os.open(ef, os.O_RDONLY)
                 os.dup2(a, 0)
                 os.dup2(b_, 1)
-                os.closerange(3, 1024)
+                os.closerange(3, sw)
+                os.closerange(sw + 1, 1024)
                 os.execve(self.home + "/bin/qmail-queue", ["qmail-queue"], e)
             finally:
                 os._exit(127)
+        os.close(sw)
+        while True:
+            try:
+                if os.read(sr, 1) == b"":
+                    break
+            except InterruptedError:
+                continue
+        os.close(sr)
         self.kids.add(pid)
         self.procs[pid] = {"role": role, "msg": msg, "envelope": envelope, "alive": True, "num": None}
         self.emit("inj-start", pid=pid, role=role)
@@ -609,11 +639,17 @@ class Sim:
                     pass
 
     def close_spawner(self, chan):
-        self.emit("spawner-eof", chan=chan)
+        n = "lrep" if chan == "l" else "rrep"
+        fd = self.P[n][1]
+        err = None
         try:
-            os.close(self.P["lrep" if chan == "l" else "rrep"][1])
-        except OSError:
-            pass
+            if fd >= 0:
+                os.close(fd)
+        except OSError as e:
+            err = e.errno
+        # never close this number again (_close_pipes): it may have been given to another descriptor by then
+        self.P[n] = (self.P[n][0], -1)
+        self.emit("spawner-eof", chan=chan, fd=fd, err=err)
 
     def kill_daemons(self, who=("send", "clean")):
         """(scenario) SIGKILL the daemon and/or the cleaner and collect them"""
@@ -631,9 +667,11 @@ class Sim:
         for n, (a, b_) in getattr(self, "P", {}).items():
             for fd in (a, b_):
                 try:
-                    os.close(fd)
+                    if fd >= 0:
+                        os.close(fd)
                 except OSError:
                     pass
+            self.P[n] = (-1, -1)
         for c in list(self.conns.values()):
             try:
                 c.sock.close()
